@@ -1,9 +1,11 @@
 -- line-protocol handler of property C17 (constraint composition polynomial); op lines mirror
--- harness/src/bin/c17.rs.  Modelled: `def` ops with explicit data over the base fields without a
--- Lagrange kernel column (definition, prover pipeline, verifier expression); everything else is `-`.
+-- harness/src/bin/c17.rs.  Modelled: `def` ops with explicit data over the base fields and their
+-- quadratic / cubic extensions, without a Lagrange kernel column (definition, prover pipeline, verifier
+-- expression); everything else is `-`.
 import Std.Data.HashMap
 import Winter.Drv.Util
 import Winter.Model.Field
+import Winter.Model.Ext
 import Winter.Model.Divisor
 import Winter.Model.Composition
 
@@ -18,7 +20,7 @@ def field? : String → Option FieldImpl
 
 /-- square-and-multiply over the field's own multiplication (exponents below 2^130); the same field
     value as the code's `exp` / repeated multiplication (outputs are canonical integers) -/
-def powLoop (mul : Nat → Nat → Nat) : Nat → Nat → Nat → Nat → Nat
+def powLoop {ε : Type} (mul : ε → ε → ε) : Nat → ε → ε → Nat → ε
   | 0, r, _, _ => r
   | fuel + 1, r, b, e =>
     if e = 0 then r else powLoop mul fuel (if e % 2 = 1 then mul r b else r) (mul b b) (e / 2)
@@ -39,25 +41,97 @@ def mkPowTable (F : FieldImpl) (N : Nat) : PowTable :=
       (F.mul st.1 W, st.2.1.push st.1, st.2.2.insert (F.asInt st.1) i)) (F.new 1, #[], {})
     ⟨N, st.2.1, st.2.2⟩
 
-/-- `x^e`: by table when `x` is a power of `W`, else square-and-multiply (the same field value) -/
-def tpow (F : FieldImpl) (T : PowTable) (x e : Nat) : Nat :=
-  match T.logs.get? (F.asInt x) with
-  | some j => T.pows.getD ((j * e) % T.N) (F.new 1)
-  | none => powLoop F.mul 130 (F.new 1) x e
+/-- one field of the protocol (a base field or an extension of it) for the driver: the model's
+    operation record on the code's raw representation, conversions from / to canonical coordinates -/
+structure ElemImpl (ε : Type) where
+  k : Nat
+  O : Ops ε
+  ofCanon : List Nat → ε
+  canon : ε → List Nat
+  beq : ε → ε → Bool
 
-/-- the code's field operations on raw words -/
-def ops (F : FieldImpl) (T : PowTable) : Ops Nat where
-  zero := F.new 0
-  one := F.new 1
-  add := F.add
-  sub := F.sub
-  mul := F.mul
-  pow := tpow F T
-  div := fun a b => match F.div a b with
-    | .done r => some r
-    | .out => none
-  ofNat := fun v => F.new (v % F.M)
-  root := F.rootOfUnity
+/-- `x^e`: by table when `x` is (the embedding of) a power of `W`, else square-and-multiply over the
+    field's own multiplication (the same field value; outputs are canonical integers) -/
+def tpow {ε : Type} (T : PowTable) (canon : ε → List Nat) (ofBaseRaw : Nat → ε) (mul : ε → ε → ε) (one : ε)
+    (x : ε) (e : Nat) : ε :=
+  match canon x with
+  | c0 :: rest =>
+    if rest.all (· == 0) then
+      match T.logs.get? c0 with
+      | some j => ofBaseRaw (T.pows.getD ((j * e) % T.N) 0)
+      | none => powLoop mul 130 one x e
+    else powLoop mul 130 one x e
+  | [] => powLoop mul 130 one x e
+
+/-- the base field: the code's operations on raw words -/
+def baseImpl (F : FieldImpl) (T : PowTable) : ElemImpl Nat where
+  k := 1
+  O := {
+    zero := F.new 0
+    one := F.new 1
+    add := F.add
+    sub := F.sub
+    mul := F.mul
+    pow := tpow T (fun x => [F.asInt x]) id F.mul (F.new 1)
+    div := fun a b => match F.div a b with
+      | .done r => some r
+      | .out => none
+    ofNat := fun v => F.new (v % F.M)
+    root := F.rootOfUnity }
+  ofCanon := fun l => F.new (l.headD 0)
+  canon := fun x => [F.asInt x]
+  beq := F.eq
+
+def ext2? (F : FieldImpl) : Option (Ext2 Nat) :=
+  let B := (BOps.ofImpl F).toFOps
+  if F.name == "f64" then some (Ext2.f64 B) else if F.name == "f62" then some (Ext2.f62 B)
+  else if F.name == "f128" then some (Ext2.f128 B) else none
+
+def ext3? (F : FieldImpl) : Option (Ext3 Nat) :=
+  let B := (BOps.ofImpl F).toFOps
+  if F.name == "f64" then some (Ext3.f64 B) else if F.name == "f62" then some (Ext3.f62 B) else none
+
+/-- `QuadExtension<B>`: the code's operations (Winter/Model/Ext.lean) on pairs of raw words -/
+def quadImpl (F : FieldImpl) (X : Ext2 Nat) (T : PowTable) : ElemImpl (Quad Nat) :=
+  let B := BOps.ofImpl F
+  let canon : Quad Nat → List Nat := fun x => [F.asInt x.c0, F.asInt x.c1]
+  { k := 2
+    O := {
+      zero := Quad.zero B
+      one := Quad.one B
+      add := Quad.add B
+      sub := Quad.sub B
+      mul := Quad.mul X
+      pow := tpow T canon (Quad.ofBase B) (Quad.mul X) (Quad.one B)
+      div := fun a b => match Quad.div B X a b with
+        | .ok r => some r
+        | _ => none
+      ofNat := fun v => Quad.ofBase B (F.new (v % F.M))
+      root := fun k => (F.rootOfUnity k).map (Quad.ofBase B) }
+    ofCanon := fun l => ⟨F.new (l.getD 0 0), F.new (l.getD 1 0)⟩
+    canon := canon
+    beq := Quad.beq B }
+
+/-- `CubeExtension<B>` -/
+def cubeImpl (F : FieldImpl) (X : Ext3 Nat) (T : PowTable) : ElemImpl (Cube Nat) :=
+  let B := BOps.ofImpl F
+  let canon : Cube Nat → List Nat := fun x => [F.asInt x.c0, F.asInt x.c1, F.asInt x.c2]
+  { k := 3
+    O := {
+      zero := Cube.zero B
+      one := Cube.one B
+      add := Cube.add B
+      sub := Cube.sub B
+      mul := Cube.mul X
+      pow := tpow T canon (Cube.ofBase B) (Cube.mul X) (Cube.one B)
+      div := fun a b => match Cube.div B X a b with
+        | .ok r => some r
+        | _ => none
+      ofNat := fun v => Cube.ofBase B (F.new (v % F.M))
+      root := fun k => (F.rootOfUnity k).map (Cube.ofBase B) }
+    ofCanon := fun l => ⟨F.new (l.getD 0 0), F.new (l.getD 1 0), F.new (l.getD 2 0)⟩
+    canon := canon
+    beq := Cube.beq B }
 
 -- ------------------------------------------------------------------------------------ parsing
 def digits? (cs : List Char) : Option Nat :=
@@ -238,16 +312,19 @@ def Desc.ok (d : Desc) : Bool :=
 -- ------------------------------------------------------------------------------------ data token
 structure Data where
   main : List (List Nat)
-  aux : List (List Nat)
-  rands : List Nat
-  lagr : List Nat
-  coeffs : List Nat
-  points : List Nat
+  aux : List (List (List Nat))
+  rands : List (List Nat)
+  lagr : List (List Nat)
+  coeffs : List (List Nat)
+  points : List (List Nat)
 
 def section? (tag : Char) (s : String) : Option String :=
   match s.toList with
   | c :: rest => if c = tag then some (String.ofList rest) else none
   | [] => none
+
+/-- one element: its canonical coordinates separated by `:` -/
+def elem? (s : String) : Option (List Nat) := listOf nat? s ":"
 
 def data? (s : String) : Option Data :=
   match s.toList with
@@ -256,8 +333,8 @@ def data? (s : String) : Option Data :=
     | [t, a, r, l, c, p] =>
       match section? 'T' t, section? 'A' a, section? 'R' r, section? 'L' l, section? 'C' c, section? 'P' p with
       | some t, some a, some r, some l, some c, some p =>
-        match listOf (fun col => listOf nat? col ",") t "|", listOf (fun col => listOf nat? col ",") a "|",
-              listOf nat? r ",", listOf nat? l ",", listOf nat? c ",", listOf nat? p "," with
+        match listOf (fun col => listOf nat? col ",") t "|", listOf (fun col => listOf elem? col ",") a "|",
+              listOf elem? r ",", listOf elem? l ",", listOf elem? c ",", listOf elem? p "," with
         | some t, some a, some r, some l, some c, some p => some ⟨t, a, r, l, c, p⟩
         | _, _, _, _, _, _ => none
       | _, _, _, _, _, _ => none
@@ -265,12 +342,15 @@ def data? (s : String) : Option Data :=
   | _ => none
 
 -- ------------------------------------------------------------------------------------ the instance
-def fnOf (O : Ops Nat) (l : List Nat) : Nat → Nat := fun i => l.getD i O.zero
-def colFn (cols : List (List Nat)) : Nat → List Nat := fun j => cols.getD j []
+section Run
+variable {ε : Type}
 
-def buildAssertion (a : AShape) (values : List Nat) : Option (Assertion Nat) :=
-  if a.kind = 's' then some (single a.column a.first (values.headD 0))
-  else if a.kind = 'p' then resOpt (periodic a.column a.first a.stride (values.headD 0))
+def fnOf (O : Ops ε) (l : List ε) : Nat → ε := fun i => l.getD i O.zero
+def colFn (cols : List (List ε)) : Nat → List ε := fun j => cols.getD j []
+
+def buildAssertion (O : Ops ε) (a : AShape) (values : List ε) : Option (Assertion ε) :=
+  if a.kind = 's' then some (single a.column a.first (values.headD O.zero))
+  else if a.kind = 'p' then resOpt (periodic a.column a.first a.stride (values.headD O.zero))
   else resOpt (sequence a.column a.first a.stride values)
 
 /-- the steps an assertion covers -/
@@ -278,56 +358,61 @@ def stepsOf (n : Nat) (a : AShape) : List Nat :=
   if a.kind = 's' then [a.first] else (List.range (n / a.stride)).map (fun k => a.first + k * a.stride)
 
 /-- the asserted values of the main segment read off the trace, in assertion order -/
-def pubsOf (d : Desc) (main : List (List Nat)) : List Nat :=
+def pubsOf (O : Ops ε) (d : Desc) (main : List (List ε)) : List ε :=
   d.asserts.flatMap (fun a =>
     let col := main.getD a.column []
-    if a.kind = 'q' then (stepsOf d.n a).map (fun s => col.getD s 0) else [col.getD a.first 0])
+    if a.kind = 'q' then (stepsOf d.n a).map (fun s => col.getD s O.zero) else [col.getD a.first O.zero])
 
 /-- the main assertions with their values -/
-def mainAssertions (d : Desc) (pubs : List Nat) : Option (List (Assertion Nat)) :=
-  (d.asserts.foldl (fun (st : Option (List (Assertion Nat)) × Nat) a =>
+def mainAssertions (O : Ops ε) (d : Desc) (pubs : List ε) : Option (List (Assertion ε)) :=
+  (d.asserts.foldl (fun (st : Option (List (Assertion ε)) × Nat) a =>
     let k := numValues d.n a
-    match st.1, buildAssertion a ((pubs.drop st.2).take k) with
+    match st.1, buildAssertion O a ((pubs.drop st.2).take k) with
     | some l, some x => (some (l ++ [x]), st.2 + k)
     | _, _ => (none, st.2 + k)) (some [], 0)).1
 
-def valueEnv (O : Ops Nat) (rands pubs : List Nat) (seq : Nat) : Env Nat :=
+def valueEnv (O : Ops ε) (rands pubs : List ε) (seq : Nat) : Env ε :=
   ⟨fun _ => O.zero, fun _ => O.zero, fun _ => O.zero, fun _ => O.zero, fun _ => O.zero,
    fnOf O rands, fnOf O pubs, seq⟩
 
-def auxAssertions (O : Ops Nat) (d : Desc) (rands pubs : List Nat) : Option (List (Assertion Nat)) :=
+def auxAssertions (O : Ops ε) (d : Desc) (rands pubs : List ε) : Option (List (Assertion ε)) :=
   d.auxAsserts.mapM (fun p =>
     let k := numValues d.n p.1
-    buildAssertion p.1 ((List.range k).map (fun j => p.2.eval O (valueEnv O rands pubs j))))
+    buildAssertion O p.1 ((List.range k).map (fun j => p.2.eval O (valueEnv O rands pubs j))))
 
 /-- reference validity: every constraint on the steps `0 .. n-e-1`, every auxiliary assertion -/
-def valid (F : FieldImpl) (O : Ops Nat) (d : Desc) (dt : Data) (rands pubs : List Nat) : Bool :=
-  let isZero (v : Nat) : Bool := F.asInt v == 0
-  let cell (cols : List (List Nat)) (s : Nat) : Nat → Nat := fun j => (cols.getD j []).getD s O.zero
+def valid (E : ElemImpl ε) (d : Desc) (main aux : List (List ε)) (rands pubs : List ε) : Bool :=
+  let O := E.O
+  let isZero (v : ε) : Bool := (E.canon v).all (· == 0)
+  let cell (cols : List (List ε)) (s : Nat) : Nat → ε := fun j => (cols.getD j []).getD s O.zero
   (List.range (d.n - d.e)).all (fun s =>
-    let per : Nat → Nat := fun i => let p := d.periodic.getD i []; O.ofNat (p.getD (s % p.length) 0)
-    let env : Env Nat := ⟨cell dt.main s, cell dt.main (s + 1), per, cell dt.aux s, cell dt.aux (s + 1),
+    let per : Nat → ε := fun i => let p := d.periodic.getD i []; O.ofNat (p.getD (s % p.length) 0)
+    let env : Env ε := ⟨cell main s, cell main (s + 1), per, cell aux s, cell aux (s + 1),
       fnOf O rands, fun _ => O.zero, 0⟩
     d.cons.all (fun c => isZero (c.2.eval O env)) && d.auxCons.all (fun c => isZero (c.2.eval O env))) &&
   d.auxAsserts.all (fun p =>
     (stepsOf d.n p.1).zipIdx.all (fun sj =>
       let j := if p.1.kind = 'q' then sj.2 else 0
-      F.asInt ((dt.aux.getD p.1.column []).getD sj.1 O.zero) == F.asInt (p.2.eval O (valueEnv O rands pubs j))))
+      E.canon ((aux.getD p.1.column []).getD sj.1 O.zero) == E.canon (p.2.eval O (valueEnv O rands pubs j))))
 
-def fmtList (F : FieldImpl) (l : List Nat) : String := ",".intercalate (l.map (fun v => toString (F.asInt v)))
+def fmtElem (E : ElemImpl ε) (v : ε) : String := ":".intercalate ((E.canon v).map toString)
 
-def optStr (F : FieldImpl) : Option Nat → String
-  | some v => toString (F.asInt v)
+def fmtList (E : ElemImpl ε) (l : List ε) : String := ",".intercalate (l.map (fmtElem E))
+
+def optStr (E : ElemImpl ε) : Option ε → String
+  | some v => fmtElem E v
   | none => "none"
 
-def runDef (F : FieldImpl) (ldeBlowup : Nat) (d : Desc) (dt : Data) : String :=
-  let O := ops F (mkPowTable F (if d.n ≤ 4096 ∧ ldeBlowup ≤ 128 then d.n * ldeBlowup else 1))
+def runDef (M : Nat) (offset : Nat) (E : ElemImpl ε) (ldeBlowup : Nat) (d : Desc) (dt : Data) : String :=
+  let O := E.O
   let n := d.n
   let (nt, nb) := (d.cons.length + d.auxCons.length, d.asserts.length + d.auxAsserts.length)
+  let elems := dt.aux.flatten ++ dt.rands ++ dt.coeffs ++ dt.points
   if !d.ok || dt.main.length != d.width || dt.main.any (fun c => c.length != n)
       || dt.aux.length != d.auxWidth || dt.aux.any (fun c => c.length != n)
       || dt.rands.length != d.numRands || !dt.lagr.isEmpty || dt.coeffs.length != nt + nb
-      || (dt.main ++ dt.aux ++ [dt.rands, dt.coeffs, dt.points]).any (fun c => c.any (fun v => v ≥ F.M)) then "bad-op"
+      || dt.main.any (fun c => c.any (fun v => v ≥ M))
+      || elems.any (fun e => e.length != E.k || e.any (fun v => v ≥ M)) then "bad-op"
   else
     let degs := d.cons.map (·.1) ++ d.auxCons.map (·.1)
     let ceB := ceBlowup degs
@@ -335,48 +420,68 @@ def runDef (F : FieldImpl) (ldeBlowup : Nat) (d : Desc) (dt : Data) : String :=
     else match setNumTransitionExemptions n degs d.e with
     | .panic _ => "bad-op"
     | .ok _ =>
-      let raw (l : List Nat) : List Nat := l.map F.new
-      let dt : Data := ⟨dt.main.map raw, dt.aux.map raw, raw dt.rands, [], raw dt.coeffs, raw dt.points⟩
-      let pubs := pubsOf d dt.main
-      let rands := fnOf O dt.rands
-      match mainAssertions d pubs, auxAssertions O d dt.rands pubs with
+      let emb (v : Nat) : ε := E.ofCanon (v :: List.replicate (E.k - 1) 0)
+      let main := dt.main.map (fun c => c.map emb)
+      let aux := dt.aux.map (fun c => c.map E.ofCanon)
+      let randsL := dt.rands.map E.ofCanon
+      let coeffs := dt.coeffs.map E.ofCanon
+      let points := dt.points.map E.ofCanon
+      let pubs := pubsOf O d main
+      let rands := fnOf O randsL
+      match mainAssertions O d pubs, auxAssertions O d randsL pubs with
       | some ma, some aa =>
-        if !valid F O d dt dt.rands pubs then "invalid"
+        if !valid E d main aux randsL pubs then "invalid"
         else
-          let air : Air Nat := ⟨n, d.e, d.width, d.auxWidth, d.periodic.map (fun p => p.map O.ofNat),
+          let air : Air ε := ⟨n, d.e, d.width, d.auxWidth, d.periodic.map (fun p => p.map O.ofNat),
             d.cons.map (·.2), d.auxCons.map (·.2), d.cons.map (·.1), d.auxCons.map (·.1), ma, aa⟩
-          let (tco, bco, _) := drawCoefficients dt.coeffs nt nb
+          let (tco, bco, _) := drawCoefficients coeffs nt nb
           let k := numCompositionColumns degs n d.e
-          match prep O air, dt.main.mapM (interpolate O), dt.aux.mapM (interpolate O),
-                mkDomain O n ceB ldeBlowup (F.new F.generator) with
+          match prep O air, main.mapM (interpolate O), aux.mapM (interpolate O),
+                mkDomain O n ceB ldeBlowup (emb offset) with
           | some P, some mp, some ap, some D =>
             let mainPolys := colFn mp
             let auxPolys := colFn ap
             let cols :=
-              match compositionTrace O F.eq air P D smallPolyDegree mainPolys auxPolys rands tco bco with
+              match compositionTrace O E.beq air P D smallPolyDegree mainPolys auxPolys rands tco bco with
               | some tr => compositionPoly O D tr k
               | none => none
-            let pts := dt.points.map (fun x =>
-              if F.asInt (O.pow x n) == 1 then "dom"
+            let pts := points.map (fun x =>
+              if E.canon (O.pow x n) == E.canon O.one then "dom"
               else
                 let h := match cols with
-                  | some cols => fmtList F (evaluateAt O cols x)
+                  | some cols => fmtList E (evaluateAt O cols x)
                   | none => "none"
                 let c := defAt O air P mainPolys auxPolys rands tco bco x
                 let v := evaluateConstraints O air P (framesOf O mainPolys auxPolys P.g x) rands tco bco x
-                s!"{h};{optStr F c};{optStr F v}")
+                s!"{h};{optStr E c};{optStr E v}")
             s!"k={k}" ++ String.join (pts.map (fun p => " " ++ p))
-          | _, _, _, _ => "none"
+          | _, _, _, _ => "bad-op"
       | _, _ => "bad-op"
+
+end Run
 
 def handle : List String → String
   | ["def", f, ext, blowup, data, desc] =>
     match field? f, nat? ext, nat? blowup with
-    | some F, some 1, some b =>
+    | some F, some x, some b =>
       match data.toList with
       | 'x' :: _ =>
         match desc? desc, data? data with
-        | some d, some dt => if d.lagrange then "-" else runDef F b d dt
+        | some d, some dt =>
+          if d.lagrange then "-"
+          else
+            let T := mkPowTable F (if d.n ≤ 4096 ∧ b ≤ 128 then d.n * b else 1)
+            let g := F.generator
+            if x = 1 then runDef F.M g (baseImpl F T) b d dt
+            else if x = 2 then
+              match ext2? F with
+              | some X => runDef F.M g (quadImpl F X T) b d dt
+              | none => "-"
+            else if x = 3 then
+              match ext3? F with
+              | some X => runDef F.M g (cubeImpl F X T) b d dt
+              | none => "-"
+            else "-"
         | _, _ => "bad-op"
       | _ => "-"
     | _, _, _ => "-"
